@@ -1,5 +1,6 @@
 import BlugeProofs.C13.Lemmas
 /-! C13: the property statements for every program of the persist shape (`canon p`, `Good p`). -/
+set_option linter.unusedSimpArgs false  -- the big case splits share one simp set
 namespace Bluge.C13
 open Bluge.FS
 
